@@ -13,7 +13,9 @@
 (*         btx  : Seq(Seq(tx))transactions of block i (first = coinbase)   *)
 (*         tin  : Seq(Seq(<<tx, j>>)) inputs of transaction t              *)
 (*         tout : Seq(Seq([a, v]))    outputs of transaction t             *)
-(*         vsz  : Seq(Nat)    virtual size of transaction t ]              *)
+(*         vsz  : Seq(Nat)    virtual size of transaction t                *)
+(*         h    : Seq(Nat)    height of block i (redundant: checked by     *)
+(*                            UniverseValid; lets Height be a lookup) ]    *)
 (* Blocks are 1..Len(uni.par), block 1 is genesis; transactions are        *)
 (* 1..Len(uni.tin); output indices j are 1-based (vout = j - 1).           *)
 (***************************************************************************)
@@ -35,11 +37,29 @@ Ins(t)  == uni.tin[t]
 Outs(t) == uni.tout[t]
 IsCoinbase(t) == Len(Ins(t)) = 0
 
-RECURSIVE Height(_)
-Height(b) == IF Par(b) = 0 THEN 0 ELSE 1 + Height(Par(b))
+\* The recursive definitions ...
+RECURSIVE HeightRec(_)
+HeightRec(b) == IF Par(b) = 0 THEN 0 ELSE 1 + HeightRec(Par(b))
 
-RECURSIVE ChainTo(_)
-ChainTo(b) == IF b = 0 THEN <<>> ELSE Append(ChainTo(Par(b)), b)
+RECURSIVE ChainToRec(_)
+ChainToRec(b) == IF b = 0 THEN <<>> ELSE Append(ChainToRec(Par(b)), b)
+
+\* ... and what is evaluated.  TLC looks identifiers up in a context that grows with every level of a
+\* recursion, so a recursion as deep as a chain of several hundred blocks costs the square of its depth
+\* (measured: 80 % of the validation time of a 700-block history was context lookup).  The heights are
+\* therefore carried by the universe (and checked against the parents by UniverseValid), and chains are
+\* built with folds.  The bounded instances check that both formulations agree (Mech.tla BlockwiseAgrees).
+Height(b) == uni.h[b]
+
+ChainTo(b) ==
+  IF b = 0 THEN <<>>
+  ELSE Reverse(FoldLeft(LAMBDA acc, i : Append(acc, Par(acc[Len(acc)])), <<b>>, [i \in 1..Height(b) |-> i]))
+
+\* the up to k last blocks of the chain ending with b
+LastOfChain(b, k) ==
+  IF b = 0 THEN <<>>
+  ELSE Reverse(FoldLeft(LAMBDA acc, i : IF Par(acc[Len(acc)]) = 0 THEN acc ELSE Append(acc, Par(acc[Len(acc)])),
+                        <<b>>, [i \in 1..(k - 1) |-> i]))
 
 IsAncestorOrSelf(a, b) == \E i \in 1..Len(ChainTo(b)) : ChainTo(b)[i] = a
 
@@ -73,8 +93,10 @@ ApplyBlock(L, b, h) ==
       new == TLCEval(UNION {{Entry(txs[i], j, h) : j \in {k \in 1..Len(Outs(txs[i])) : Outs(txs[i])[k].a # OpRet}} : i \in 1..Len(txs)})
   IN TLCEval({e \in L \cup new : <<e.t, e.j>> \notin spent})
 
-RECURSIVE LedgerAt(_)
-LedgerAt(b) == IF b = 0 THEN {} ELSE ApplyBlock(LedgerAt(Par(b)), b, Height(b))
+RECURSIVE LedgerAtRec(_)
+LedgerAtRec(b) == IF b = 0 THEN {} ELSE ApplyBlockSeq(LedgerAtRec(Par(b)), b, HeightRec(b))
+
+LedgerAt(b) == IF b = 0 THEN {} ELSE FoldLeft(LAMBDA L, x : ApplyBlock(L, x, Height(x)), {}, ChainTo(b))
 
 AddrEntries(a, b) == {e \in LedgerAt(b) : e.a = a}
 SumValues(S) == FoldSet(LAMBDA e, acc : acc + e.v, 0, S)
@@ -118,6 +140,8 @@ TxValidBlockFrom(b, parentLedger) ==
 
 UniverseValid ==
   /\ \A b \in AllBlocks : Par(b) < b
+  /\ Len(uni.h) = NumBlocks
+  /\ \A b \in AllBlocks : uni.h[b] = IF Par(b) = 0 THEN 0 ELSE uni.h[Par(b)] + 1
   /\ LET LM == LedgerMap
      IN \A b \in AllBlocks : TxValidBlockFrom(b, IF Par(b) = 0 THEN {} ELSE LM[Par(b)])
 
